@@ -143,10 +143,11 @@ type sessGen struct {
 	root  *WNode // the R node
 	files []string
 	dirs  []string
+	nfrag int // fragments are taken in turn (from a random start), so that every kind is used evenly
 }
 
 func newSessGen(env *Env, r *WNode) *sessGen {
-	g := &sessGen{env: env, root: r}
+	g := &sessGen{env: env, root: r, nfrag: env.Rnd.Intn(13)}
 	r.Walk(func(rel string, x *WNode) {
 		if rel == "" {
 			g.dirs = append(g.dirs, "/")
@@ -300,7 +301,8 @@ func (g *sessGen) fragment(withCD bool) []*Req {
 	dir := strings.TrimSuffix(g.pick(g.dirs), "/")
 	newName := []string{"UP", "new", "n1", "n2"}[r.Intn(4)]
 	badCreates := []string{dir + "/nodir/x", "/***DVD***/" + strings.TrimPrefix(dir, "/") + "/x", g.pick(g.files) + "/x", "/" + strings.Repeat("L", 300), dir}
-	switch r.Intn(13) {
+	g.nfrag++
+	switch g.nfrag % 13 {
 	case 0: // upload in several writes
 		out := []*Req{{Op: opCreateFile, Path: dir + "/" + newName}}
 		for k := 0; k < 1+r.Intn(3); k++ {
@@ -369,11 +371,18 @@ func (g *sessGen) fragment(withCD bool) []*Req {
 		out := []*Req{}
 		for k := 0; k < 3; k++ {
 			p := g.pick(g.files)
+			for try := 0; try < 6 && g.sizeOf(p) < 6000; try++ { // preferably a file that holds two raw sectors, so that the sector read is served
+				p = g.pick(g.files)
+			}
 			if withCD && r.Intn(2) == 0 {
 				p = "/cd.bin"
 			}
 			b := uint64(r.Intn(3000))
-			out = append(out, &Req{Op: opOpenFile, Path: p}, &Req{Op: opReadFile, N: 100, Off: b}, &Req{Op: opReadCD, Start: uint32(r.Intn(50)), Cnt: uint32(r.Intn(3))},
+			start, cnt := uint32(r.Intn(50)), uint32(r.Intn(3))
+			if k == 0 {
+				start, cnt = uint32(r.Intn(2)), 1
+			}
+			out = append(out, &Req{Op: opOpenFile, Path: p}, &Req{Op: opReadFile, N: 100, Off: b}, &Req{Op: opReadCD, Start: start, Cnt: cnt},
 				&Req{Op: opReadFile, N: 100, Off: b + 100}, &Req{Op: opReadFileCritical, N: 10, Off: b + 200})
 			if r.Intn(3) == 0 {
 				out = append(out, &Req{Op: opOpenFile, Path: "CLOSEFILE"})
